@@ -30,6 +30,8 @@ def run(tier: str) -> int:
         ]
     # choices of literals / ranges in every order, also through the optimizer (ordered choice must survive squashing)
     fams.append({"Family": "optsq", "MaxLen": 3 if not thorough else 4, "Starts": "zero", "Sample": 250 if not thorough else 0, "workers": 3 if not thorough else 8, "style": "min", "modes": ("interp", "gen", "opt", "optgen")})
+    # case-insensitive literals fold ASCII letters only: inputs with KELVIN SIGN, LONG S, sharp s next to k, K, s, S
+    fams.append({"Family": "ci", "MaxLen": 3, "Starts": "zero", "Sample": 300 if not thorough else 0, "workers": 3 if not thorough else 8, "style": "min", "modes": ("interp", "gen", "opt", "optgen")})
     for f in fams:
         replay.run_family(rep, f, "sem", f.get("modes", modes))
     rep.rule = (
